@@ -46,6 +46,49 @@ class ObInstance:
     props: Tuple[str, ...] = ()
 
 
+_COVERED: set = set()
+# term id -> (term, answer); the term is kept alive so that its id cannot be reused
+_SEQ_CACHE: Dict[int, Tuple[Any, bool]] = {}
+
+
+def has_seq(e) -> bool:
+    """does the term mention a sequence/string sorted sub-term?  (decides which solver answers
+    feasibility queries)"""
+    if isinstance(e, bool):
+        return False
+    i = e.get_id()
+    r = _SEQ_CACHE.get(i)
+    if r is not None:
+        return r[1]
+    stack = [e]
+    seen = set()
+    found = False
+    while stack:
+        t = stack.pop()
+        ti = t.get_id()
+        if ti in seen:
+            continue
+        seen.add(ti)
+        c = _SEQ_CACHE.get(ti)
+        if c is not None:
+            if c[1]:
+                found = True
+                break
+            continue
+        k = t.sort().kind()
+        if k in (z3.Z3_SEQ_SORT, z3.Z3_RE_SORT):
+            found = True
+            break
+        if z3.is_quantifier(t):
+            stack.append(t.body())
+        elif z3.is_app(t):
+            stack.extend(t.children())
+    if len(_SEQ_CACHE) > 50000:
+        _SEQ_CACHE.clear()
+    _SEQ_CACHE[i] = (e, found)
+    return found
+
+
 class Ctx:
     def __init__(self, prefix: List[int], unit: str = ""):
         self.unit = unit
@@ -56,6 +99,10 @@ class Ctx:
         self.new_prefixes: List[List[int]] = []
         self.solver = z3.Solver()
         self.solver.set("timeout", SOLVER_TIMEOUT_MS)
+        # `fast` holds only the assertions without string/sequence terms: it over-approximates the
+        # path condition, so "unsat" from it is conclusive and "sat" merely means "explore it"
+        self.fast = z3.Solver()
+        self.fast.set("timeout", SOLVER_TIMEOUT_MS)
         self.n_assumed = 0
         self.obligations: List[ObInstance] = []
         self.counter: Dict[str, int] = {}
@@ -72,6 +119,7 @@ class Ctx:
         self.key_ids: set = set()
         self.qfacts: List[Callable] = []
         self.seq_facts: List[Tuple[Any, Callable]] = []
+        self.str_proxies: Dict[int, Dict[str, Any]] = {}
 
     # ------------------------------------------------------------------ fresh names
     def fresh_name(self, base: str) -> str:
@@ -81,6 +129,19 @@ class Ctx:
 
     def fresh(self, base: str, sort):
         return z3.Const(self.fresh_name(base), sort)
+
+    def str_eq_lit(self, var, lit: str):
+        """(var == lit) for an uninterpreted string constant and a literal, as a Bool proxy that the
+        string-free solver can branch on (proxies of one variable are mutually exclusive)"""
+        d = self.str_proxies.setdefault(var.get_id(), {})
+        if lit in d:
+            return d[lit]
+        p = z3.Bool(f"{var}=={lit!r}")
+        self.solver.add(p == (var == z3.StringVal(lit)))
+        for other in d.values():
+            self.fast.add(z3.Not(z3.And(p, other)))
+        d[lit] = p
+        return p
 
     def add_key(self, term) -> None:
         """`term` (an Int) may be used as a map / array index: instantiate every universally
@@ -119,6 +180,14 @@ class Ctx:
         return k
 
     def check(self, *extra) -> z3.CheckSatResult:
+        """feasibility query.  Without string terms in `extra` the string-free solver answers
+        (it over-approximates: exploring an infeasible path is harmless, its obligations are
+        discharged by the full solver); `check_full` is used where exactness matters."""
+        if not extra or not any(has_seq(x) for x in extra):
+            return self.check_fast(*extra)
+        return self.check_full(*extra)
+
+    def check_full(self, *extra) -> z3.CheckSatResult:
         t0 = time.perf_counter()
         import os as _os1
 
@@ -135,6 +204,12 @@ class Ctx:
                 f.write(f"; ---- slow check {dt:.0f} ms result {r} extra={extra}\n{self.solver.to_smt2()}\n")
         return r
 
+    def check_fast(self, *extra) -> z3.CheckSatResult:
+        t0 = time.perf_counter()
+        r = self.fast.check(*extra)
+        self.solver_ms += (time.perf_counter() - t0) * 1000
+        return r
+
     def assume(self, cond, why: str = "") -> None:
         """add to the path condition; cut the path if it becomes unsatisfiable"""
         if isinstance(cond, bool):
@@ -146,7 +221,12 @@ class Ctx:
             return
         if z3.is_false(cond):
             raise PathEnd(f"assume False {why}")
+        self._add(cond)
+
+    def _add(self, cond) -> None:
         self.solver.add(cond)
+        if not has_seq(cond):
+            self.fast.add(cond)
         self.n_assumed += 1
 
     def assume_checked(self, cond, why: str = "") -> None:
@@ -158,8 +238,18 @@ class Ctx:
         """may `cond` hold on this path?  unknown counts as feasible (sound for proofs)"""
         if isinstance(cond, bool):
             return cond
-        r = self.check(cond)
+        r = self.check_full(cond) if has_seq(cond) else self.check_fast(cond)
         return r != z3.unsat
+
+    def decided(self, cond):
+        """True / False if the path condition (its string-free part) decides cond, else None"""
+        if has_seq(cond):
+            return None
+        if self.check_fast(cond) == z3.unsat:
+            return False
+        if self.check_fast(z3.Not(cond)) == z3.unsat:
+            return True
+        return None
 
     def branch(self, cond, label: str = "") -> bool:
         """decide a symbolic condition: returns the python bool taken on this path"""
@@ -170,8 +260,12 @@ class Ctx:
             return True
         if z3.is_false(cond):
             return False
-        can_t = self.check(cond) != z3.unsat
-        can_f = self.check(z3.Not(cond)) != z3.unsat
+        if has_seq(cond):
+            can_t = self.check_full(cond) != z3.unsat
+            can_f = self.check_full(z3.Not(cond)) != z3.unsat
+        else:
+            can_t = self.check_fast(cond) != z3.unsat
+            can_f = self.check_fast(z3.Not(cond)) != z3.unsat
         if can_t and can_f:
             k = self.choose(2, label, ["T", "F"])
             taken = k == 0
@@ -181,8 +275,7 @@ class Ctx:
             taken = False
         else:
             raise PathEnd("path condition unsatisfiable")
-        self.solver.add(cond if taken else z3.Not(cond))
-        self.n_assumed += 1
+        self._add(cond if taken else z3.Not(cond))
         return taken
 
     # ------------------------------------------------------------------ obligations
@@ -190,6 +283,19 @@ class Ctx:
         if isinstance(cond, bool):
             cond = z3.BoolVal(cond)
         t0 = time.perf_counter()
+        if self.known_region is None and not has_seq(cond):
+            # the string-free part of the path condition often suffices (unsat there is unsat)
+            self.fast.push()
+            self.fast.add(z3.Not(cond))
+            r0 = self.fast.check()
+            self.fast.pop()
+            if r0 == z3.unsat:
+                ms = (time.perf_counter() - t0) * 1000
+                self.solver_ms += ms
+                self.obligations.append(ObInstance(name=name, clause=clause, where=where, status="unsat", path=tuple(self.labels), ms=ms, pc_size=self.n_assumed, note=note, props=tuple(props)))
+                if assume_after:
+                    self.assume(cond, "after prove")
+                return "unsat"
         self.solver.push()
         self.solver.add(z3.Not(cond))
         if self.known_region is not None:
@@ -235,9 +341,12 @@ class Ctx:
 
     def cover(self, name: str) -> None:
         """record that program point `name` is reached on a feasible path (vacuity guard)"""
-        if self.covers.get(name):
+        if self.covers.get(name) or (self.unit, name) in _COVERED:
+            self.covers[name] = True
             return
-        self.covers[name] = self.check() == z3.sat
+        self.covers[name] = self.check_full() == z3.sat
+        if self.covers[name]:
+            _COVERED.add((self.unit, name))
 
     def _model_inputs(self, m) -> Dict[str, Any]:
         out: Dict[str, Any] = {}
